@@ -176,3 +176,74 @@ def out_reference(fixed, output, audio):
     calls = []
     expand(list(fixed) + chans, lambda a: calls.append(a), list)
     return calls
+
+
+# ---------------------------------------------------------------------------
+# argument sharing across builds and argument immutability
+
+def instantiate_pair(t, make_ugen, make_chlist, share=None, path=()):
+    """-> (real, ref).  `real` is what is handed to the library, `ref` what
+    the reference expansion works on: a structurally equal value built
+    freshly from the template whose unit-generator leaves are the very same
+    objects.  With a `share` dict, every sub-structure of the template that
+    contains no unit generator (numbers, tuples / lists / channel lists of
+    numbers) is created once and the SAME object is handed out again on later
+    instantiations (a caller reusing a constant table over several builds);
+    `ref` never aliases it."""
+    if not template_has(t, 'ugen'):
+        ref = instantiate(t, None, make_chlist)
+        if share is None or t[0] not in ('list', 'tup'):
+            return instantiate(t, None, make_chlist), ref
+        if path not in share:
+            share[path] = instantiate(t, None, make_chlist)
+        return share[path], ref
+    k = t[0]
+    if k == 'ugen':
+        u = make_ugen(t[1])
+        return u, u
+    pairs = [instantiate_pair(x, make_ugen, make_chlist, share, path + (n,))
+             for n, x in enumerate(t[1])]
+    real = [p[0] for p in pairs]
+    ref = [p[1] for p in pairs]
+    if k == 'tup':
+        return tuple(real), tuple(ref)
+    if t[2]:
+        return make_chlist(real), make_chlist(ref)
+    return real, ref
+
+
+def snapshot(x, is_unit):
+    """deep value snapshot of an argument: container kinds and lengths,
+    numbers by type and value, unit generators by identity."""
+    if isinstance(x, list):
+        return ('L', type(x).__name__, tuple(snapshot(i, is_unit) for i in x))
+    if isinstance(x, tuple):
+        return ('T', tuple(snapshot(i, is_unit) for i in x))
+    if is_unit(x):
+        return ('U', id(x))
+    return ('v', type(x).__name__, repr(x))
+
+
+def snapshot_diff(a, b, depth=0):
+    """None when equal, else '<top|nested>-<what>' for the first difference
+    (depth 0 = the argument object itself)."""
+    if a == b:
+        return None
+    where = 'top' if depth <= 1 else 'nested'
+    if a[0] != b[0]:
+        if a[0] == 'v' and b[0] == 'U':
+            return where + '-number-replaced-by-unit'
+        return where + '-element-kind-changed'
+    if a[0] in ('L', 'T'):
+        xa, xb = a[-1], b[-1]
+        if a[0] == 'L' and a[1] != b[1]:
+            return where + '-container-type-changed'
+        if len(xa) != len(xb):
+            return ('top' if depth == 0 else 'nested') + '-length-changed'
+        for i, j in zip(xa, xb):
+            d = snapshot_diff(i, j, depth + 1)
+            if d:
+                return d
+    if a[0] == 'v':
+        return where + '-value-changed'
+    return where + '-unit-replaced'
